@@ -507,7 +507,7 @@ def _parse_angle(param_str):
                     "'": u.arcmin,
                     'd': u.deg,
                     'r': u.rad}
-    if param_str[-1] not in string.digits:
+    if param_str[-1] in unit_mapping:
         unit = unit_mapping[param_str[-1]]
         return u.Quantity(float(param_str[:-1]), unit=unit)
     else:
